@@ -42,6 +42,10 @@ def odml_tuple_import(t_count, new_value):
                 for tuple_val in n_val:
                     n_val_str += str(tuple_val) + "; "
                 return_value += [n_val_str[:-2] + ")"]
+            else:
+                # Do not drop an item of the wrong length silently;
+                # the value validation of the caller refuses it.
+                return_value += [n_val]
         elif not isinstance(n_val, str):
             # Nothing to import; the value validation of the caller refuses it.
             return_value += [n_val]
@@ -57,6 +61,9 @@ def odml_tuple_import(t_count, new_value):
                     return_value = cln[1:-1].split(",")
             elif br_check and sep_check:
                 return_value += [cln]
+            else:
+                # Same here: keep the item so that it is refused, not lost.
+                return_value += [n_val]
 
     if not return_value:
         return_value = new_value
